@@ -53,6 +53,12 @@ func New() vh.Interp {
 	vh.Silence()
 	it := &Interp{clk: vh.NewClock(startMs)}
 	it.Reset()
+	// one recording slot of each kind (id 0) on api's real global chain: `entry <e> *` (api.Entry without WithSlotChain)
+	// must run exactly these (the built-in slots are silent and pass: no rules are ever loaded here)
+	g := sentinel.GlobalSlotChain()
+	g.AddStatPrepareSlot(&pSlot{it: it, id: 0, order: 0, beh: "ok"})
+	g.AddRuleCheckSlot(&rSlot{it: it, id: 0, order: 0, beh: "nil", rule: &rule{0}})
+	g.AddStatSlot(&sSlot{it: it, id: 0, order: 0, beh: "ok"})
 	return it
 }
 
@@ -392,6 +398,15 @@ func sortedIDs(sc *base.SlotChain) string {
 	return vh.List(p) + " " + vh.List(r) + " " + vh.List(s)
 }
 
+// ours reports the harness's own recording slots (not part of the built-in chain).
+func ours(x interface{}) bool {
+	switch x.(type) {
+	case *pSlot, *rSlot, *sSlot:
+		return true
+	}
+	return false
+}
+
 func named(x interface{ Order() uint32 }) string {
 	return fmt.Sprintf("%s:%d", strings.TrimPrefix(fmt.Sprintf("%T", x), "*"), x.Order())
 }
@@ -400,13 +415,19 @@ func globalOrder() string {
 	sc := sentinel.GlobalSlotChain()
 	var p, r, s []string
 	for _, x := range field(sc, "statPres").Interface().([]base.StatPrepareSlot) {
-		p = append(p, named(x))
+		if !ours(x) {
+			p = append(p, named(x))
+		}
 	}
 	for _, x := range field(sc, "ruleChecks").Interface().([]base.RuleCheckSlot) {
-		r = append(r, named(x))
+		if !ours(x) {
+			r = append(r, named(x))
+		}
 	}
 	for _, x := range field(sc, "stats").Interface().([]base.StatSlot) {
-		s = append(s, named(x))
+		if !ours(x) {
+			s = append(s, named(x))
+		}
 	}
 	return vh.List(p) + " " + vh.List(r) + " " + vh.List(s)
 }
@@ -416,7 +437,7 @@ func globalOrder() string {
 func (it *Interp) Step(t []string, op string) string {
 	switch {
 	case t[0] == "chain" && len(t) >= 2:
-		if _, ok := it.chains[t[1]]; ok || !validSlots(t[2:]) {
+		if _, ok := it.chains[t[1]]; ok || t[1] == "*" || !validSlots(t[2:]) {
 			return "bad-op"
 		}
 		sc := base.NewSlotChain()
@@ -434,11 +455,19 @@ func (it *Interp) Step(t []string, op string) string {
 		return sortedIDs(c.sc)
 	case t[0] == "entry" && len(t) == 3:
 		c, ok := it.chains[t[2]]
-		if _, dup := it.entries[t[1]]; !ok || dup {
+		global := t[2] == "*"
+		if _, dup := it.entries[t[1]]; (!ok && !global) || dup {
 			return "bad-op"
 		}
 		it.log, it.curCtx = nil, nil
-		e, be := sentinel.Entry("c16-"+t[2], sentinel.WithSlotChain(c.sc))
+		var e *base.SentinelEntry
+		var be *base.BlockError
+		if global {
+			// no WithSlotChain: api.Entry must resolve the global chain, whatever chain earlier entries selected
+			e, be = sentinel.Entry("c16-global")
+		} else {
+			e, be = sentinel.Entry("c16-"+t[2], sentinel.WithSlotChain(c.sc))
+		}
 		rec := &entryRec{e: e, be: be}
 		if be != nil {
 			rec.ctx = it.curCtx // a rule slot ran, so the context has been seen
